@@ -1,4 +1,460 @@
+/-
+  C12 — other routers' RAs: exactly the RFC 4861 §6.2.7 inconsistencies are reported.
+  All theorems quantify over every pair of RAs (arbitrary option lists of any length).
+-/
 import Corerad.Spec.C12
+import Corerad.Spec.C03
+
 namespace Corerad.Props.C12
-theorem placeholder : True := trivial
+
+open Corerad Corerad.Model Corerad.Spec.C12
+
+theorem checkDurations_eq (a b : Dur) : (!checkDurations ms a b) = timerDiffers a b := by
+  unfold checkDurations timerDiffers msec
+  simp only
+  generalize truncateDur a ms = x
+  generalize truncateDur b ms = y
+  by_cases hx : x = 0 <;> by_cases hy : y = 0 <;> by_cases hxy : x = y <;> simp [hx, hy, hxy]
+
+theorem checkRAs_eq (a b : RA) : checkRAs a b = header a b := by
+  unfold checkRAs header
+  simp only [checkDurations_eq, bne_iff_ne, ne_eq, ite_not]
+
+private theorem inner_pi (x : IP × Nat × Dur × Dur) (ys : List (IP × Nat × Dur × Dur)) :
+    checkPrefixInner x ys = ys.flatMap fun y =>
+      if x.1 == y.1 && x.2.1 == y.2.1 then
+        (if sec x.2.2.2 != sec y.2.2.2 then [{ field := .piPreferred, details := some (x.1, x.2.1) }] else []) ++
+        (if sec x.2.2.1 != sec y.2.2.1 then [{ field := .piValid, details := some (x.1, x.2.1) }] else [])
+      else [] := by
+  induction ys with
+  | nil => rfl
+  | cons y ys ih =>
+    simp only [checkPrefixInner, List.flatMap_cons, ih]
+    congr 1
+    by_cases h1 : x.1 = y.1 <;> by_cases h2 : x.2.1 = y.2.1 <;>
+      simp [h1, h2, wireSec, sec, bne_iff_ne]
+
+private theorem outer_pi (xs ys : List (IP × Nat × Dur × Dur)) :
+    checkPrefixOuter ys xs = xs.flatMap fun x => ys.flatMap fun y =>
+      if x.1 == y.1 && x.2.1 == y.2.1 then
+        (if sec x.2.2.2 != sec y.2.2.2 then [{ field := .piPreferred, details := some (x.1, x.2.1) }] else []) ++
+        (if sec x.2.2.1 != sec y.2.2.1 then [{ field := .piValid, details := some (x.1, x.2.1) }] else [])
+      else [] := by
+  induction xs with
+  | nil => rfl
+  | cons x xs ih => simp only [checkPrefixOuter, List.flatMap_cons, ih, inner_pi]
+
+theorem checkPrefixes_eq (a b : RA) : checkPrefixes a.options b.options = prefixProblems a b := by
+  unfold checkPrefixes prefixProblems
+  simp only [outer_pi]
+  cases ha : pickPI a.options with
+  | nil => simp
+  | cons x xs =>
+    cases hb : pickPI b.options with
+    | nil => simp
+    | cons y ys => simp
+
+private theorem inner_ri (x : IP × Nat × Nat × Dur) (ys : List (IP × Nat × Nat × Dur)) :
+    checkRouteInner x ys = ys.flatMap fun y =>
+      if x.1 == y.1 && x.2.1 == y.2.1 && x.2.2.1 == y.2.2.1 && sec x.2.2.2 != sec y.2.2.2 then
+        [{ field := .riLifetime, details := some (x.1, x.2.1) }]
+      else [] := by
+  induction ys with
+  | nil => rfl
+  | cons y ys ih =>
+    simp only [checkRouteInner, List.flatMap_cons, ih]
+    congr 1
+    by_cases h1 : x.1 = y.1 <;> by_cases h2 : x.2.1 = y.2.1 <;> by_cases h3 : x.2.2.1 = y.2.2.1 <;>
+      simp [h1, h2, h3, wireSec, sec, bne_iff_ne]
+
+private theorem outer_ri (xs ys : List (IP × Nat × Nat × Dur)) :
+    checkRouteOuter ys xs = xs.flatMap fun x => ys.flatMap fun y =>
+      if x.1 == y.1 && x.2.1 == y.2.1 && x.2.2.1 == y.2.2.1 && sec x.2.2.2 != sec y.2.2.2 then
+        [{ field := .riLifetime, details := some (x.1, x.2.1) }]
+      else [] := by
+  induction xs with
+  | nil => rfl
+  | cons x xs ih => simp only [checkRouteOuter, List.flatMap_cons, ih, inner_ri]
+
+theorem checkRoutes_eq (a b : RA) : checkRoutes a.options b.options = routeProblems a b := by
+  unfold checkRoutes routeProblems
+  simp only [outer_ri]
+  cases ha : pickRI a.options with
+  | nil => simp
+  | cons x xs =>
+    cases hb : pickRI b.options with
+    | nil => simp
+    | cons y ys => simp
+
+private theorem dnsPairs_eq {α : Type} [DecidableEq α] (fl fi : Field) :
+    ∀ (xs ys : List (Dur × List α)), xs.length = ys.length →
+      checkDNSPairs fl fi xs ys = (xs.zip ys).flatMap fun (x, y) =>
+        (if sec x.1 != sec y.1 then [{ field := fl }] else []) ++
+        (if x.2 != y.2 then [{ field := fi }] else [])
+  | [], [], _ => rfl
+  | [], _ :: _, h => by simp at h
+  | _ :: _, [], h => by simp at h
+  | x :: xs, y :: ys, h => by
+    simp only [checkDNSPairs, List.zip_cons_cons, List.flatMap_cons]
+    rw [dnsPairs_eq fl fi xs ys (by simpa using h)]
+    congr 1
+    congr 1
+    · by_cases hh : truncateDur x.1 second = truncateDur y.1 second <;> simp [wireSec, sec, bne_iff_ne, hh]
+    · by_cases hl : x.2.length = y.2.length
+      · by_cases he : x.2 = y.2 <;> simp [hl, he]
+      · have : x.2 ≠ y.2 := fun e => hl (by rw [e])
+        simp [hl, this]
+
+theorem checkDNS_eq {α : Type} [DecidableEq α] (fc fl fi : Field) (xs ys : List (Dur × List α)) :
+    checkDNS fc fl fi xs ys = dnsProblems fc fl fi xs ys := by
+  unfold checkDNS dnsProblems
+  by_cases he : (xs.isEmpty || ys.isEmpty) = true
+  · simp [he]
+  · simp only [he, Bool.false_eq_true, if_false]
+    by_cases hl : xs.length = ys.length
+    · simp [hl, dnsPairs_eq fl fi xs ys hl]
+    · simp [hl]
+
+/-- **Soundness and completeness**: the checker reports exactly the inconsistencies of the
+    specification — same labels, same multiplicities, even the same order. -/
+theorem verify_eq_spec (a b : RA) : verifyRAs a b = specProblems a b := by
+  unfold verifyRAs specProblems
+  rw [checkRAs_eq, checkPrefixes_eq, checkRoutes_eq, checkDNS_eq, checkDNS_eq]
+  unfold checkMTUs checkCaptivePortal
+  congr 1
+  · congr 1
+    · congr 1
+      · congr 1
+        · congr 1
+          · congr 1
+            cases firstMTU a.options <;> cases firstMTU b.options <;> simp
+  · cases firstPortal a.options <;> cases firstPortal b.options <;> simp
+
+/-- The oracle the check evaluates accepts the model's report. -/
+theorem holds_model (a b : RA) :
+    Spec.C12.holds a b (handleRA a b).1 (handleRA a b).2 = true := by
+  unfold Spec.C12.holds handleRA sameCounts
+  simp only [verify_eq_spec, beq_self_eq_true, Bool.true_and, Bool.and_true, List.all_eq_true]
+  intro p _; trivial
+
+/-- Each inconsistency is counted once under its labels and the hook fires iff there is one. -/
+theorem hook_iff (a b : RA) : (handleRA a b).2 = true ↔ verifyRAs a b ≠ [] := by
+  unfold handleRA
+  cases verifyRAs a b <;> simp
+
+theorem counted_once (a b : RA) : (handleRA a b).1 = specProblems a b := by
+  unfold handleRA; exact verify_eq_spec a b
+
+/-! ### nothing for a field or option absent on either side -/
+
+private theorem header_fields (a b : RA) (p : Problem) (hp : p ∈ header a b) :
+    p.field = .hopLimit ∨ p.field = .managed ∨ p.field = .other ∨
+    (p.field = .reachable ∧ timerDiffers a.reachable b.reachable = true) ∨
+    (p.field = .retransmit ∧ timerDiffers a.retransmit b.retransmit = true) := by
+  unfold header at hp
+  simp only [List.mem_append] at hp
+  rcases hp with (((hp | hp) | hp) | hp) | hp <;> split at hp <;> simp at hp <;> subst hp <;> simp_all
+
+private theorem prefix_fields (a b : RA) (p : Problem) (hp : p ∈ prefixProblems a b) :
+    (p.field = .piPreferred ∨ p.field = .piValid) ∧ pickPI a.options ≠ [] ∧ pickPI b.options ≠ [] := by
+  unfold prefixProblems at hp
+  simp only [List.mem_flatMap] at hp
+  obtain ⟨x, hx, y, hy, hp⟩ := hp
+  refine ⟨?_, List.ne_nil_of_mem hx, List.ne_nil_of_mem hy⟩
+  split at hp
+  · simp only [List.mem_append] at hp
+    rcases hp with hp | hp <;> split at hp <;> simp at hp <;> subst hp <;> simp
+  · simp at hp
+
+private theorem route_fields (a b : RA) (p : Problem) (hp : p ∈ routeProblems a b) :
+    p.field = .riLifetime ∧ pickRI a.options ≠ [] ∧ pickRI b.options ≠ [] := by
+  unfold routeProblems at hp
+  simp only [List.mem_flatMap] at hp
+  obtain ⟨x, hx, y, hy, hp⟩ := hp
+  refine ⟨?_, List.ne_nil_of_mem hx, List.ne_nil_of_mem hy⟩
+  split at hp <;> simp at hp
+  subst hp; rfl
+
+private theorem dns_fields {α : Type} [DecidableEq α] (fc fl fi : Field) (xs ys : List (Dur × List α))
+    (p : Problem) (hp : p ∈ dnsProblems fc fl fi xs ys) :
+    (p.field = fc ∨ p.field = fl ∨ p.field = fi) ∧ xs ≠ [] ∧ ys ≠ [] := by
+  unfold dnsProblems at hp
+  split at hp
+  · simp at hp
+  · rename_i he
+    have hne : xs ≠ [] ∧ ys ≠ [] := by
+      cases xs <;> cases ys <;> simp_all
+    refine ⟨?_, hne⟩
+    split at hp
+    · simp at hp; subst hp; simp
+    · simp only [List.mem_flatMap, List.mem_append] at hp
+      obtain ⟨_, _, hp⟩ := hp
+      rcases hp with hp | hp <;> split at hp <;> simp at hp <;> subst hp <;> simp
+
+/-- **Nothing is reported for a field or option that is absent on either side**: a reported
+    problem about the MTU, a prefix, a route, RDNSS, DNSSL or the captive portal implies both
+    RAs carry such an option; one about a timer implies both timers are non-zero on the wire. -/
+theorem absent_silent (a b : RA) (p : Problem) (hp : p ∈ verifyRAs a b) :
+    (p.field = .mtu → (firstMTU a.options).isSome ∧ (firstMTU b.options).isSome) ∧
+    (p.field = .piPreferred ∨ p.field = .piValid → pickPI a.options ≠ [] ∧ pickPI b.options ≠ []) ∧
+    (p.field = .riLifetime → pickRI a.options ≠ [] ∧ pickRI b.options ≠ []) ∧
+    (p.field = .rdnssCount ∨ p.field = .rdnssLifetime ∨ p.field = .rdnssServers →
+        pickRDNSS a.options ≠ [] ∧ pickRDNSS b.options ≠ []) ∧
+    (p.field = .dnsslCount ∨ p.field = .dnsslLifetime ∨ p.field = .dnsslNames →
+        pickDNSSL a.options ≠ [] ∧ pickDNSSL b.options ≠ []) ∧
+    (p.field = .captivePortal → (firstPortal a.options).isSome ∧ (firstPortal b.options).isSome) ∧
+    (p.field = .reachable → msec a.reachable ≠ 0 ∧ msec b.reachable ≠ 0) ∧
+    (p.field = .retransmit → msec a.retransmit ≠ 0 ∧ msec b.retransmit ≠ 0) := by
+  rw [verify_eq_spec] at hp
+  unfold specProblems at hp
+  simp only [List.mem_append] at hp
+  rcases hp with (((((hp | hp) | hp) | hp) | hp) | hp) | hp
+  · have h := header_fields a b p hp
+    unfold timerDiffers at h
+    simp only [Bool.and_eq_true, bne_iff_ne, ne_eq] at h
+    rcases h with h | h | h | ⟨h, h2⟩ | ⟨h, h2⟩ <;> simp [h] <;> simp_all
+  · cases ha : firstMTU a.options <;> cases hb : firstMTU b.options <;> simp only [ha, hb] at hp <;>
+      (try (simp at hp; done))
+    split at hp <;> simp at hp
+    subst hp; simp
+  · obtain ⟨h, h1, h2⟩ := prefix_fields a b p hp
+    rcases h with h | h <;> simp [h, h1, h2]
+  · obtain ⟨h, h1, h2⟩ := route_fields a b p hp
+    simp [h, h1, h2]
+  · obtain ⟨h, h1, h2⟩ := dns_fields _ _ _ _ _ p hp
+    rcases h with h | h | h <;> simp [h, h1, h2]
+  · obtain ⟨h, h1, h2⟩ := dns_fields _ _ _ _ _ p hp
+    rcases h with h | h | h <;> simp [h, h1, h2]
+  · cases ha : firstPortal a.options <;> cases hb : firstPortal b.options <;> simp only [ha, hb] at hp <;>
+      (try (simp at hp; done))
+    split at hp <;> simp at hp
+    subst hp; simp
+
+/-! ### an RA equal to CoreRAD's own produces no report -/
+
+private theorem zip_self_flatMap {α β : Type} (f : α × α → List β) (h : ∀ x, f (x, x) = []) :
+    ∀ xs : List α, (xs.zip xs).flatMap f = []
+  | [] => rfl
+  | x :: xs => by simp only [List.zip_cons_cons, List.flatMap_cons, h x, zip_self_flatMap f h xs, List.append_nil]
+
+private theorem dns_refl {α : Type} [DecidableEq α] (fc fl fi : Field) (xs : List (Dur × List α)) :
+    dnsProblems fc fl fi xs xs = [] := by
+  unfold dnsProblems
+  split
+  · rfl
+  · simp only [bne_self_eq_false, Bool.false_eq_true, if_false]
+    exact zip_self_flatMap _ (fun x => by simp) xs
+
+/-- A coherent RA compared with itself yields no report. -/
+theorem verify_refl (a : RA) (hc : coherent a = true) : verifyRAs a a = [] := by
+  rw [verify_eq_spec]
+  unfold coherent at hc
+  simp only [Bool.and_eq_true, List.all_eq_true, Bool.or_eq_true, Bool.not_eq_true', beq_iff_eq] at hc
+  have hpi : prefixProblems a a = [] := by
+    unfold prefixProblems
+    simp only [List.flatMap_eq_nil_iff]
+    intro x hx y hy
+    rcases hc.1 x hx y hy with h | h
+    · simp [h]
+    · simp [h.1, h.2]
+  have hri : routeProblems a a = [] := by
+    unfold routeProblems
+    simp only [List.flatMap_eq_nil_iff]
+    intro x hx y hy
+    rcases hc.2 x hx y hy with h | h
+    · simp [h]
+    · simp [h]
+  unfold specProblems header timerDiffers
+  simp only [hpi, hri, dns_refl, bne_self_eq_false, Bool.and_false, Bool.false_eq_true, if_false,
+    List.append_nil, List.nil_append]
+  cases firstMTU a.options <;> cases firstPortal a.options <;> simp
+
+/-! ### …also after a wire round trip -/
+
+theorem sec_nonneg (d : Dur) (h : 0 ≤ d) : sec d = d - d % second := by
+  unfold sec truncateDur goMod
+  have : ¬ (second ≤ 0) := by decide
+  simp only [this, if_false, Int.tmod_eq_emod_of_nonneg h]
+
+theorem msec_nonneg (d : Dur) (h : 0 ≤ d) : msec d = d - d % ms := by
+  unfold msec truncateDur goMod
+  have : ¬ (ms ≤ 0) := by decide
+  simp only [this, if_false, Int.tmod_eq_emod_of_nonneg h]
+
+private theorem sec_trunc (d : Dur) (h : 0 ≤ d) : sec (Spec.C03.trunc d second) = sec d := by
+  have h2 : 0 ≤ Spec.C03.trunc d second := by unfold Spec.C03.trunc second; omega
+  rw [sec_nonneg _ h2, sec_nonneg _ h]
+  unfold Spec.C03.trunc second; omega
+
+private theorem msec_trunc (d : Dur) (h : 0 ≤ d) : msec (Spec.C03.trunc d ms) = msec d := by
+  have h2 : 0 ≤ Spec.C03.trunc d ms := by unfold Spec.C03.trunc ms; omega
+  rw [msec_nonneg _ h2, msec_nonneg _ h]
+  unfold Spec.C03.trunc ms; omega
+
+private theorem pickPI_trunc (l : List Opt) :
+    pickPI (l.map Spec.C03.truncOpt) =
+      (pickPI l).map fun x => (x.1, x.2.1, Spec.C03.trunc x.2.2.1 second, Spec.C03.trunc x.2.2.2 second) := by
+  induction l with
+  | nil => rfl
+  | cons o l ih => cases o <;> simp [pickPI, Spec.C03.truncOpt, ih]
+
+private theorem pickRI_trunc (l : List Opt) :
+    pickRI (l.map Spec.C03.truncOpt) =
+      (pickRI l).map fun x => (x.1, x.2.1, x.2.2.1, Spec.C03.trunc x.2.2.2 second) := by
+  induction l with
+  | nil => rfl
+  | cons o l ih => cases o <;> simp [pickRI, Spec.C03.truncOpt, ih]
+
+private theorem pickRDNSS_trunc (l : List Opt) :
+    pickRDNSS (l.map Spec.C03.truncOpt) = (pickRDNSS l).map fun x => (Spec.C03.trunc x.1 second, x.2) := by
+  induction l with
+  | nil => rfl
+  | cons o l ih => cases o <;> simp [pickRDNSS, Spec.C03.truncOpt, ih]
+
+private theorem pickDNSSL_trunc (l : List Opt) :
+    pickDNSSL (l.map Spec.C03.truncOpt) = (pickDNSSL l).map fun x => (Spec.C03.trunc x.1 second, x.2) := by
+  induction l with
+  | nil => rfl
+  | cons o l ih => cases o <;> simp [pickDNSSL, Spec.C03.truncOpt, ih]
+
+private theorem firstMTU_trunc (l : List Opt) : firstMTU (l.map Spec.C03.truncOpt) = firstMTU l := by
+  induction l with
+  | nil => rfl
+  | cons o l ih => cases o <;> simp [firstMTU, Spec.C03.truncOpt, ih]
+
+private theorem firstPortal_trunc (l : List Opt) : firstPortal (l.map Spec.C03.truncOpt) = firstPortal l := by
+  induction l with
+  | nil => rfl
+  | cons o l ih => cases o <;> simp [firstPortal, Spec.C03.truncOpt, ih]
+
+/-- every lifetime / timer of the RA is non-negative (implied by `Spec.C03.wireSafe`) -/
+def NonNeg (a : RA) : Prop :=
+  0 ≤ a.reachable ∧ 0 ≤ a.retransmit ∧
+  (∀ x ∈ pickPI a.options, 0 ≤ x.2.2.1 ∧ 0 ≤ x.2.2.2) ∧ (∀ x ∈ pickRI a.options, 0 ≤ x.2.2.2) ∧
+  (∀ x ∈ pickRDNSS a.options, 0 ≤ x.1) ∧ (∀ x ∈ pickDNSSL a.options, 0 ≤ x.1)
+
+private theorem mem_pick_of (l : List Opt) :
+    (∀ x ∈ pickPI l, ∃ ol au, Opt.pi x.1 x.2.1 ol au x.2.2.1 x.2.2.2 ∈ l) ∧
+    (∀ x ∈ pickRI l, Opt.ri x.1 x.2.1 x.2.2.1 x.2.2.2 ∈ l) ∧
+    (∀ x ∈ pickRDNSS l, Opt.rdnss x.1 x.2 ∈ l) ∧ (∀ x ∈ pickDNSSL l, Opt.dnssl x.1 x.2 ∈ l) := by
+  induction l with
+  | nil => simp [pickPI, pickRI, pickRDNSS, pickDNSSL]
+  | cons o l ih =>
+    obtain ⟨h1, h2, h3, h4⟩ := ih
+    refine ⟨?_, ?_, ?_, ?_⟩
+    · intro x hx
+      cases o <;> simp only [pickPI, List.mem_cons] at hx
+      case pi a len ol au v p =>
+        rcases hx with rfl | hx
+        · exact ⟨ol, au, List.mem_cons_self⟩
+        · obtain ⟨ol', au', h⟩ := h1 x hx; exact ⟨ol', au', List.mem_cons_of_mem _ h⟩
+      all_goals (obtain ⟨ol', au', h⟩ := h1 x hx; exact ⟨ol', au', List.mem_cons_of_mem _ h⟩)
+    · intro x hx
+      cases o <;> simp only [pickRI, List.mem_cons] at hx
+      case ri a len pr lt =>
+        rcases hx with rfl | hx
+        · exact List.mem_cons_self
+        · exact List.mem_cons_of_mem _ (h2 x hx)
+      all_goals exact List.mem_cons_of_mem _ (h2 x hx)
+    · intro x hx
+      cases o <;> simp only [pickRDNSS, List.mem_cons] at hx
+      case rdnss lt sv =>
+        rcases hx with rfl | hx
+        · exact List.mem_cons_self
+        · exact List.mem_cons_of_mem _ (h3 x hx)
+      all_goals exact List.mem_cons_of_mem _ (h3 x hx)
+    · intro x hx
+      cases o <;> simp only [pickDNSSL, List.mem_cons] at hx
+      case dnssl lt nm =>
+        rcases hx with rfl | hx
+        · exact List.mem_cons_self
+        · exact List.mem_cons_of_mem _ (h4 x hx)
+      all_goals exact List.mem_cons_of_mem _ (h4 x hx)
+
+theorem nonneg_of_wireSafe (a : RA) (h : Spec.C03.wireSafe a = true) : NonNeg a := by
+  unfold Spec.C03.wireSafe Spec.C03.fits at h
+  simp only [Bool.and_eq_true, decide_eq_true_eq, List.all_eq_true] at h
+  obtain ⟨⟨⟨⟨⟨_, _⟩, _⟩, ⟨hr, _⟩⟩, ⟨ht, _⟩⟩, hopts⟩ := h
+  obtain ⟨m1, m2, m3, m4⟩ := mem_pick_of a.options
+  refine ⟨hr, ht, ?_, ?_, ?_, ?_⟩
+  · intro x hx
+    obtain ⟨ol, au, hm⟩ := m1 x hx
+    have := hopts _ hm
+    simp only [Spec.C03.encodable, Spec.C03.fits, Bool.and_eq_true, decide_eq_true_eq] at this
+    exact ⟨this.1.2.1, this.2.1⟩
+  · intro x hx
+    have := hopts _ (m2 x hx)
+    simp only [Spec.C03.encodable, Spec.C03.fits, Bool.and_eq_true, decide_eq_true_eq] at this
+    exact this.2.1
+  · intro x hx
+    have := hopts _ (m3 x hx)
+    simp only [Spec.C03.encodable, Spec.C03.fits, Bool.and_eq_true, decide_eq_true_eq] at this
+    exact this.2.1
+  · intro x hx
+    have := hopts _ (m4 x hx)
+    simp only [Spec.C03.encodable, Spec.C03.fits, Bool.and_eq_true, decide_eq_true_eq] at this
+    exact this.2.1
+
+private theorem zip_trunc_flatMap {α : Type} [DecidableEq α] (fl fi : Field) :
+    ∀ (xs : List (Dur × List α)), (∀ x ∈ xs, 0 ≤ x.1) →
+      ((xs.zip (xs.map fun x => (Spec.C03.trunc x.1 second, x.2))).flatMap fun (x, y) =>
+        (if sec x.1 != sec y.1 then [({ field := fl } : Problem)] else []) ++
+        (if x.2 != y.2 then [{ field := fi }] else [])) = []
+  | [], _ => rfl
+  | x :: xs, h => by
+    simp only [List.map_cons, List.zip_cons_cons, List.flatMap_cons]
+    rw [zip_trunc_flatMap fl fi xs (fun y hy => h y (List.mem_cons_of_mem _ hy))]
+    simp [sec_trunc x.1 (h x List.mem_cons_self)]
+
+private theorem dns_trunc {α : Type} [DecidableEq α] (fc fl fi : Field) (xs : List (Dur × List α))
+    (h : ∀ x ∈ xs, 0 ≤ x.1) :
+    dnsProblems fc fl fi xs (xs.map fun x => (Spec.C03.trunc x.1 second, x.2)) = [] := by
+  unfold dnsProblems
+  split
+  · rfl
+  · simp only [List.length_map, bne_self_eq_false, Bool.false_eq_true, if_false]
+    exact zip_trunc_flatMap fl fi xs h
+
+/-- **An RA equal to CoreRAD's own after a wire round trip produces no report**: a coherent RA
+    with non-negative durations (in particular a wire-safe one) is consistent with its own
+    truncation to the wire units. -/
+theorem verify_roundtrip (a : RA) (hn : NonNeg a) (hc : coherent a = true) :
+    verifyRAs a (Spec.C03.truncateRA a) = [] := by
+  rw [verify_eq_spec]
+  obtain ⟨hr, ht, hpi, hri, hrd, hds⟩ := hn
+  unfold coherent at hc
+  simp only [Bool.and_eq_true, List.all_eq_true, Bool.or_eq_true, Bool.not_eq_true', beq_iff_eq] at hc
+  have hpiP : prefixProblems a (Spec.C03.truncateRA a) = [] := by
+    unfold prefixProblems Spec.C03.truncateRA
+    simp only [pickPI_trunc, List.flatMap_eq_nil_iff, List.mem_map]
+    rintro x hx _ ⟨y, hy, rfl⟩
+    simp only [sec_trunc _ (hpi y hy).1, sec_trunc _ (hpi y hy).2]
+    rcases hc.1 x hx y hy with h | h
+    · simp [h]
+    · simp [h.1, h.2]
+  have hriP : routeProblems a (Spec.C03.truncateRA a) = [] := by
+    unfold routeProblems Spec.C03.truncateRA
+    simp only [pickRI_trunc, List.flatMap_eq_nil_iff, List.mem_map]
+    rintro x hx _ ⟨y, hy, rfl⟩
+    simp only [sec_trunc _ (hri y hy)]
+    rcases hc.2 x hx y hy with h | h
+    · simp [h]
+    · simp [h]
+  unfold specProblems header timerDiffers
+  rw [hpiP, hriP]
+  simp only [Spec.C03.truncateRA, pickRDNSS_trunc, pickDNSSL_trunc, firstMTU_trunc, firstPortal_trunc,
+    dns_trunc _ _ _ _ hrd, dns_trunc _ _ _ _ hds, msec_trunc _ hr, msec_trunc _ ht,
+    bne_self_eq_false, Bool.and_false, Bool.false_eq_true, if_false, List.append_nil, List.nil_append]
+  cases firstMTU a.options <;> cases firstPortal a.options <;> simp
+
+/-- Non-vacuity: a concrete pair with a differing prefix lifetime, a differing MTU and an RDNSS
+    option absent on one side reports exactly the two comparable differences. -/
+example :
+    let p : IP := { val := 0x20010db8000000010000000000000000 }
+    let own : RA := { hopLimit := 64, options := [.pi p 64 true true (2 * hour) hour, .mtu 1500, .rdnss hour [p]] }
+    let got : RA := { hopLimit := 64, options := [.mtu 1280, .pi p 64 true true (3 * hour) hour] }
+    verifyRAs own got = [{ field := .mtu }, { field := .piValid, details := some (p, 64) }] ∧
+    coherent own = true ∧ verifyRAs own own = [] := by
+  decide
+
 end Corerad.Props.C12
